@@ -441,10 +441,22 @@ var str2boolDecl = &parser.FuncDefStmt{
 	ReturnType: parser.BOOL_TYPE,
 }
 
+// parseBool accepts exactly the spellings that the documentation of str2bool
+// lists; strconv.ParseBool also takes "t", "T", "f" and "F".
+func parseBool(s string) (bool, error) {
+	switch s {
+	case "true", "True", "TRUE", "1":
+		return true, nil
+	case "false", "False", "FALSE", "0":
+		return false, nil
+	}
+	return false, strconv.ErrSyntax
+}
+
 func str2boolFunc(scope *scope, args []value) (value, error) {
 	resetGlobalErr(scope)
 	s := args[0].(*stringVal)
-	b, err := strconv.ParseBool(s.V)
+	b, err := parseBool(s.V)
 	if err != nil {
 		msg := fmt.Sprintf("str2bool: cannot parse %q", s.V)
 		setGlobalErr(scope, msg)
